@@ -79,15 +79,16 @@ def runs_of(atoms):
     return [tuple(r) for r in runs]
 
 
-def write_itp(path, name, residues):
-    """residues: [[resname, [atomname…]], …]; resnr = 1, 2, … ; chain bonds"""
+def write_itp(path, name, residues, resnrs=None):
+    """residues: [[resname, [atomname…]], …]; resnr = 1, 2, … (or `resnrs`, one per residue); chain bonds"""
     lines = ["[ moleculetype ]", "; Name nrexcl", f"{name} 3", "", "[ atoms ]",
              "; nr type resnr residue atom cgnr charge mass"]
     k = 0
     for ri, (resname, names) in enumerate(residues):
         for nm in names:
             k += 1
-            lines.append(f"{k:6d} C {ri + 1:5d} {resname:>6s} {nm:>6s} {k:5d}  0.000  12.011")
+            rnr = ri + 1 if resnrs is None else resnrs[ri]
+            lines.append(f"{k:6d} C {rnr:5d} {resname:>6s} {nm:>6s} {k:5d}  0.000  12.011")
     lines += ["", "[ bonds ]"]
     for i in range(1, k):
         lines.append(f"{i:6d} {i + 1:6d} 1")
